@@ -584,6 +584,15 @@ func runC04(c *Ctx) {
 		cl, host, ip := ps[0], ps[1], ps[2]
 		H := u.ToBool(g.RetExpr(s, 0))
 		cNil := u.ToBool(u.Eq(cl, u.mk("nil", "", nil)))
+		inSupport := false
+		for _, v := range u.bdd.Support(H) {
+			if u.bdd.Var(v) == cNil {
+				inSupport = true
+			}
+		}
+		if !inSupport {
+			cNil = False // no nil test here: the callers guarantee a non-nil set (dereferences are audited by C12.R2)
+		}
 		hostEmpty := u.ToBool(u.Eq(host, u.Str("")))
 		var m1, m2, ipZero Ref = False, False, False
 		for _, at := range u.AtomsOf(H) {
